@@ -47,7 +47,21 @@ func (g *G) relaySpec(name string) *SpecD {
 		if g.P(1, 10) {
 			act.Ops = append(act.Ops, []interface{}{"fail", g.boom()})
 		}
-		s.Nodes[rn] = &NodeD{Action: act, Branching: &BranchingD{Type: "bindings", Branches: []BranchD{{Target: "listen"}}}}
+		next := "listen"
+		if g.P(1, 3) {
+			// a second action in the same walk: when it fails (or the step limit cuts the walk short)
+			// the first action has completed, and what it emitted counts
+			next = fmt.Sprintf("p%d", d)
+			post := &Prog{Lang: "es", Ret: "bs", Ops: [][]interface{}{{"inc", "m"}}}
+			if g.P(1, 2) {
+				post.Ops = append(post.Ops, []interface{}{"emit", map[string]interface{}{"tag": "post-" + name, "to": "nobody"}})
+			}
+			if g.P(1, 2) {
+				post.Ops = append(post.Ops, []interface{}{"fail", g.boom()})
+			}
+			s.Nodes[next] = &NodeD{Action: post, Branching: &BranchingD{Type: "bindings", Branches: []BranchD{{Target: "listen"}}}}
+		}
+		s.Nodes[rn] = &NodeD{Action: act, Branching: &BranchingD{Type: "bindings", Branches: []BranchD{{Target: next}}}}
 	}
 	s.Nodes["listen"] = listen
 	s.Nodes["start"] = &NodeD{Branching: &BranchingD{Branches: []BranchD{{Target: "listen"}}}}
@@ -72,6 +86,7 @@ var InlineSpecJSON func(*SpecD) interface{}
 
 func (g *G) CrewCase(profile string) CrewCase {
 	c := CrewCase{Specs: map[string]*SpecD{}, Limit: 10 + g.Intn(30), Init: map[string]CrewMachineD{}, Profile: profile}
+
 	ns := 1 + g.Intn(3)
 	names := []string{}
 	for i := 0; i < ns; i++ {
